@@ -46,6 +46,10 @@ def _summary(db, chk, m):
     R = runs[0].ret
     ctx = (OPS, T.TRUE, None)
     keys = (T.col(OPS, "cat"), T.col(OPS, "name"))
+    gb = [e for e in runs[0].events if e["kind"] == "groupby-agg"]
+    fns = sorted(k.split("\x1f")[1] for e in gb for k in e["cols"] if "\x1f" in k)
+    chk.ob(rule, "events are aggregated per (cat, name) with exactly count and sum of dur", len(gb) == 1 and gb[0]["keys"] == ["cat", "name"] and fns == ["count", "sum"], where,
+           found={"keys": [e["keys"] for e in gb], "functions": fns}, accepted={"keys": ["cat", "name"], "functions": ["count", "sum"]}, why="total_duration must be the SUM of the durations")
     check_term(chk, rule, "counts = number of events per (cat, name)", where, R.col("counts"), [T.agg("count", T.col(OPS, "dur"), ctx, keys)],
                "rename table agreement dur_count -> counts")
     check_term(chk, rule, "total_duration = sum of dur per (cat, name)", where, R.col("total_duration"), [T.agg("sum", T.col(OPS, "dur"), ctx, keys)],
